@@ -130,6 +130,8 @@ def _ops_alphabet(keys, n):
         ops.append({'op': 'add_item', 'key': k, 'value': 'w', 'pos_key': keys[0], 'index': 0})
         ops.append({'op': 'append', 'key': k})
         ops.append({'op': 'append', 'key': k, 'value': 'x', 'replace': False})
+    ops.append({'op': 'setitem', 'key': keys[0], 'value': None})
+    ops.append({'op': 'add_item', 'key': keys[1], 'value': None, 'index': 0})
     for i in range(-1, n + 1):
         ops.append({'op': 'pop_at', 'index': i})
     ops += [{'op': 'sort', 'reverse': True}, {'op': 'sort', 'key': 'const'}, {'op': 'sort', 'key': 'const', 'reverse': True},
@@ -153,7 +155,8 @@ def bounded(tier, seed):
     alpha = _ops_alphabet(keys, 3)
     failures, cases = [], 0
     depth = 2 if tier == 'quick' else 3
-    inits = [[], [['a', 1]], [['a', 1], ['b', 2], ['c', 3]], [['c', 3], ['a', 1]]]
+    inits = [[], [['a', 1]], [['a', 1], ['b', 2], ['c', 3]], [['c', 3], ['a', 1]],
+             [['a', None], ['b', 0], ['c', '']]]        # null / falsy values are values: a key holding None is present
     rnd = random.Random(seed)
     for init in inits:
         seqs = itertools.product(alpha, repeat=depth) if (tier != 'quick' or True) else []
@@ -172,7 +175,7 @@ def bounded(tier, seed):
         r = run_history(init, seq)
         if r and len(failures) < 10:
             failures.append({'id': 'C16/history/rnd%d' % cases, 'what': r[1], 'input': {'kind': 'history', 'initial': init, 'ops': seq[:r[0] + 1]}})
-    return {'cases': cases, 'failures': failures, 'bound': 'all operation sequences of depth %d over 3 keys x all position arguments from 4 initial maps; random sequences of length 4..12' % depth}
+    return {'cases': cases, 'failures': failures, 'bound': 'all operation sequences of depth %d over 3 keys x all position arguments from 5 initial maps (one holding None / falsy values); random sequences of length 4..12' % depth}
 
 
 def replay(inp):
